@@ -5,6 +5,7 @@ package main
 // response writer is a harness type, decoders havoc their target.
 
 import (
+	"fmt"
 	"go/types"
 	"net/textproto"
 
@@ -102,9 +103,6 @@ func registerHTTP(e *Engine) {
 			}
 		}
 		return TupleV{E: []Value{in.str.Const(""), in.str.Const(""), Sc{in.b.False}}}
-	})
-	reg("(*net/http.Request).Context", func(in *Interp, _ *frame, fn *ssa.Function, args []Value, pos tokenPos) Value {
-		return IfaceV{T: types.Typ[types.UnsafePointer], V: OpaqueV{Tag: "ctx", Data: &ctxModel{}}}
 	})
 	reg("net.SplitHostPort", func(in *Interp, _ *frame, fn *ssa.Function, args []Value, pos tokenPos) Value {
 		s := args[0].(*Str)
@@ -242,4 +240,119 @@ func (in *Interp) teeBody(caller *frame, pos tokenPos) {
 			}
 		}
 	}
+}
+
+// ---- context, timers and the JSON encoder (handler-level harnesses) ----
+
+type ctxNode struct {
+	parent    Value // IfaceV of the parent context, or nil
+	done      *ChanObj
+	cancelled bool
+}
+
+func (in *Interp) ctxRefresh(caller *frame, c *ctxNode, pos tokenPos) {
+	if c.cancelled || c.parent == nil {
+		return
+	}
+	if pi, ok := c.parent.(IfaceV); ok && pi.T != nil {
+		d := in.callMethod(caller, pi, "Done", pos)
+		if cv, ok := d.(ChanV); ok && cv.c != nil && cv.c.closed {
+			c.cancelled = true
+			c.done.closed = true
+		}
+	}
+}
+
+func registerCtxModel(e *Engine) {
+	reg := func(name string, f IntrinsicFn) { e.intr[name] = f }
+	ctxOf := func(v Value) *ctxNode {
+		switch x := v.(type) {
+		case OpaqueV:
+			if c, ok := x.Data.(*ctxNode); ok {
+				return c
+			}
+		}
+		return nil
+	}
+	reg("context.WithCancel", func(in *Interp, _ *frame, fn *ssa.Function, args []Value, pos tokenPos) Value {
+		in.nobj++
+		c := &ctxNode{parent: args[0], done: &ChanObj{id: in.nobj}}
+		in.ctxNodes = append(in.ctxNodes, c)
+		ov := OpaqueV{Tag: "ctxnode", Data: c}
+		return TupleV{E: []Value{IfaceV{T: types.Typ[types.UnsafePointer], V: ov}, FuncV{Builtin: "model:ctxnode.cancel", Recv: ov}}}
+	})
+	reg("context.Background", func(in *Interp, _ *frame, fn *ssa.Function, args []Value, pos tokenPos) Value {
+		in.nobj++
+		return IfaceV{T: types.Typ[types.UnsafePointer], V: OpaqueV{Tag: "ctxnode", Data: &ctxNode{done: &ChanObj{id: in.nobj}}}}
+	})
+	modelMethods["model:ctxnode.cancel"] = func(in *Interp, _ *frame, _ *ssa.Function, args []Value, pos tokenPos) Value {
+		// called as a plain func value: the node travels in the ghost slot set below
+		if c := in.cancelTarget; c != nil && !c.cancelled {
+			c.cancelled = true
+			c.done.closed = true
+		}
+		return nil
+	}
+	modelMethods["model:ctxnode.Done"] = func(in *Interp, caller *frame, _ *ssa.Function, args []Value, pos tokenPos) Value {
+		c := ctxOf(args[0])
+		in.ctxRefresh(caller, c, pos)
+		return ChanV{c: c.done}
+	}
+	modelMethods["model:ctxnode.Err"] = func(in *Interp, caller *frame, _ *ssa.Function, args []Value, pos tokenPos) Value {
+		c := ctxOf(args[0])
+		in.ctxRefresh(caller, c, pos)
+		if c.cancelled {
+			return in.newError(in.str.Const("context canceled"))
+		}
+		return IfaceV{}
+	}
+	modelMethods["model:ctxnode.Value"] = func(in *Interp, _ *frame, _ *ssa.Function, args []Value, pos tokenPos) Value { return IfaceV{} }
+	modelMethods["model:ctxnode.Deadline"] = func(in *Interp, _ *frame, _ *ssa.Function, args []Value, pos tokenPos) Value {
+		return TupleV{E: []Value{TimeV{Kind: TimeZero, V: in.b.BV(0, 64)}, Sc{in.b.False}}}
+	}
+	// requests carry the context the harness attached with WithContext
+	reg("(*net/http.Request).WithContext", func(in *Interp, _ *frame, fn *ssa.Function, args []Value, pos tokenPos) Value {
+		rp := args[0].(PtrV)
+		o := in.newObj(copyVal(in.load(rp, pos)), rp.obj.typ, "Request.WithContext")
+		o.heap = true
+		in.ghost[fmt.Sprintf("reqctx:%d", o.id)] = args[1]
+		return PtrV{obj: o}
+	})
+	reg("(*net/http.Request).Context", func(in *Interp, _ *frame, fn *ssa.Function, args []Value, pos tokenPos) Value {
+		rp := args[0].(PtrV)
+		if c, ok := in.ghost[fmt.Sprintf("reqctx:%d", rp.obj.id)]; ok {
+			return c
+		}
+		in.nobj++
+		return IfaceV{T: types.Typ[types.UnsafePointer], V: OpaqueV{Tag: "ctxnode", Data: &ctxNode{done: &ChanObj{id: in.nobj}}}}
+	})
+	// timers never fire within a path (flushing and pings are outside the properties checked through handlers)
+	mkTimer := func(in *Interp, fn *ssa.Function) Value {
+		pt := fn.Signature.Results().At(0).Type().(*types.Pointer)
+		sv := in.zero(pt.Elem()).(*StructV)
+		st := pt.Elem().Underlying().(*types.Struct)
+		for i := 0; i < st.NumFields(); i++ {
+			if st.Field(i).Name() == "C" {
+				in.nobj++
+				sv.F[i] = ChanV{c: &ChanObj{cap: 1, id: in.nobj}}
+			}
+		}
+		o := in.newObj(sv, pt.Elem(), "timer")
+		o.heap = true
+		return PtrV{obj: o}
+	}
+	reg("time.NewTimer", func(in *Interp, _ *frame, fn *ssa.Function, args []Value, pos tokenPos) Value { return mkTimer(in, fn) })
+	reg("time.NewTicker", func(in *Interp, _ *frame, fn *ssa.Function, args []Value, pos tokenPos) Value { return mkTimer(in, fn) })
+	reg("(*time.Timer).Stop", func(in *Interp, _ *frame, fn *ssa.Function, args []Value, pos tokenPos) Value { return Sc{in.b.False} })
+	reg("(*time.Timer).Reset", func(in *Interp, _ *frame, fn *ssa.Function, args []Value, pos tokenPos) Value { return Sc{in.b.False} })
+	reg("(*time.Ticker).Stop", func(in *Interp, _ *frame, fn *ssa.Function, args []Value, pos tokenPos) Value { return nil })
+	// the JSON encoder records what is encoded (ghost list read by verifEncoded) and writes a placeholder line
+	reg("(*encoding/json.Encoder).Encode", func(in *Interp, caller *frame, fn *ssa.Function, args []Value, pos tokenPos) Value {
+		in.encoded = append(in.encoded, args[1])
+		ep := args[0].(PtrV)
+		if o, ok := in.load(ep, pos).(OpaqueV); ok && o.Tag == "jsonenc" {
+			in.callMethod(caller, o.Data.(Value), "Write", pos, BytesV{S: in.str.Const("{}\n")})
+		}
+		return IfaceV{}
+	})
 }
